@@ -11,6 +11,9 @@ static Json::Value genC06(Rng& rng) {
   o.asyncActionP = rng.pick({0.6, 0.9, 1.0});
   o.cgroupRulesetP = rng.pick({0.0, 0.0, 0.5});
   o.delays = {-1, 0, 0, 1, 7};
+  // stopping actions with a delay of their own: the override must also take
+  // effect when the STOP comes after a resume on a quiet tick
+  o.pauseArgP = rng.pick({0.0, 0.4});
   Json::Value scripts(Json::objectValue);
   plan["world"] = genEngineWorld(rng, o.cgroupRulesetP > 0);
   plan["config"] = genEngineConfig(rng, o, scripts);
